@@ -185,7 +185,9 @@ def run(ctx):
                        "layouts with perturbed sidx/tfra), then n/3 multi-track files (1-4 tracks, ids from {1..9, 65536, 2^32-2}, "
                        "random handler kinds / timescales / missing trex, trafs in random order, tracks missing from fragments, 0-2 "
                        "truns of 0-3 samples, durations up to 2^32-1, duplicate trafs; half of them with virtual mdat boxes making a "
-                       "segment exactly 2^31-2 .. 2^33+5 bytes, B lines), then n/6 byte-level re-encodings (R lines, a third with "
+                       "segment exactly 2^31-2 .. 2^33+5 bytes, B lines; a fifth of the multi-track files delimited by ONE top-level sidx box "
+                       "without styp, the huge ones of those with 3-7 references of ~1.5 GiB .. 2^31-1 bytes so that segments start "
+                       "more than 4 / 8 GiB behind the anchor point, decoded lazily), then n/6 byte-level re-encodings (R lines, a third with "
                        "skewed data offsets; every box below 4 KiB carries its bytes and is re-encoded by the extracted C01 model); distinct = "
                        "distinct case lines; search: partition vs intended "
                        "segmentation, StartPos vs own scanner and as byte offsets into the input (box header at StartPos, children "
